@@ -465,20 +465,25 @@ def _mb_view(el):
             'names': list(el.amplifiers)}
 
 
+REJECT_KINDS = {'ValueError', 'SpectrumError', 'NetworkTopologyError', 'ConfigurationError', 'ServiceError',
+                'EquipmentConfigError', 'ParametersError', 'DisjunctionError'}   # ValueError or a gnpy error class
+
+
 def check_designed_wf(res, el, where='designed'):
-    """monitor (assumption of the path theorems, on the real object): after the design the bands seen by the common-range
-    computation are exactly the first bands of the per-band amplifiers, pairwise disjoint, one amplifier per band name"""
+    """the precondition `Elem.WF` of the path theorems on the real object (a correspondence, not a clause of the property):
+    after the design the bands seen by the common-range computation are exactly the first bands of the per-band
+    amplifiers, pairwise disjoint, one amplifier per band name"""
     v = _mb_view(el)
     pb, cb = [b[:2] for b in v['params']], [b[:2] for b in v['bands']]
+    res.compared += 1
     if sorted(pb) != sorted(cb) or len({tuple(b) for b in pb}) != len(pb):
-        res.fail(f'wf-violated: {where} multiband element {el.uid!r}: params.bands {pb} (used for the common range) differ from '
-                 f'the bands of its amplifiers {cb} (used by __call__)')
+        res.mismatch('Elem.WF(params.bands = amplifier bands)', pb, cb, uid=el.uid, where=where)
     for i in range(len(cb)):
         for j in range(i + 1, len(cb)):
             if not (cb[i][1] <= cb[j][0] or cb[j][1] <= cb[i][0]):
-                res.fail(f'wf-violated: {where} multiband element {el.uid!r}: amplifier bands {cb[i]} and {cb[j]} overlap')
+                res.mismatch('Elem.WF(amplifier bands disjoint)', [cb[i], cb[j]], 'disjoint', uid=el.uid, where=where)
     if len(set(v['names'])) != len(v['names']):
-        res.fail(f'wf-violated: {where} multiband element {el.uid!r}: two amplifiers for one band name {v["names"]}')
+        res.mismatch('Elem.WF(one amplifier per band name)', v['names'], sorted(set(v['names'])), uid=el.uid, where=where)
 
 
 def run_build(case, drv):
@@ -595,12 +600,10 @@ def check_propagations(res, drv, calls, launched, sid, what):
             [(int(f), int(s)) for f, s in zip(seg[0].before['freq'], seg[0].before['slot'])]
         slot0 = first[0][1] if first else None
         lch = launched(seg)          # [(f, slot)] launched for this propagation
-        if amps:
-            keep = [c for c in lch if all(any(_inside(c[0], c[1], b) for b in ab[1]) for ab in amps)]
-        else:
-            keep = [c for c in lch if _inside(c[0], c[1], (int(sid.f_min), int(sid.f_max)))]
+        keep = [c for c in lch if all(any(_inside(c[0], c[1], b) for b in ab[1]) for ab in amps)]
         where = f'{what}, propagation {si_ + 1} of {len(segs)} with the same request ({seg[0].uid} -> {seg[-1].uid})'
-        if first != sorted(keep):
+        # a path without amplifier: the statement removes nothing (the code filters on the SI band: correspondence below)
+        if amps and first != sorted(keep):
             lost = sorted(set(keep) - set(first))
             extra = sorted(set(first) - set(keep))
             res.fail(f'filter-history: {where}: {len(first)} channels enter the first element, {len(keep)} launched channels fit '
@@ -865,18 +868,24 @@ def run_path(case, drv):
     if amps:
         keep = [c for c in car if all(any(_inside(c['f'], c['slot'], b) for b in ab[1]) for ab in amps)]
     else:
+        # no amplifier on the path: the statement removes nothing; that the code then filters on the SI band is code
+        # behaviour under correspondence (model `commonRange` default band) - the monitor takes what entered the first element
         keep = [c for c in car if _inside(c['f'], c['slot'], (int(sid.f_min), int(sid.f_max)))]
+        res.stats['path_without_amplifier'] += 1
     exp = sorted(_car_ident(c) for c in keep)
     removed = len(car) - len(keep)
     if 'err' in impl:
-        if keep:
+        if keep and amps:
             res.fail(f'lost-all: propagation raised {impl["err"]} although {len(keep)} launched channels lie inside the band '
                      'common to all amplifiers')
-        elif impl['err'] != 'ValueError':
-            res.fail(f'error-kind: no channel inside the common band raised {impl["err"]}')
+        elif impl['err'] not in REJECT_KINDS:
+            # the statement fixes the error kind only for overlap / baud > slot; the exact kind is under correspondence
+            res.fail(f'error-kind: no channel inside the common band ended in {impl["err"]} (not a ValueError / gnpy error)')
     else:
         calls = rec.calls
         first = _ident(calls[0].before)
+        if not amps:
+            exp = first
         if first != exp:
             lost = sorted(set(r[0] for r in exp) - set(r[0] for r in first))
             extra = sorted(set(r[0] for r in first) - set(r[0] for r in exp))
@@ -953,8 +962,8 @@ def run_call(case, drv):
                      '(or order / records differ)')
     elif exp:
         res.fail(f'amplifier-selection: {type(el).__name__} raised {impl["err"]} with {len(exp)} channels in its band(s)')
-    elif impl['err'] != 'ValueError':
-        res.fail(f'error-kind: amplifier without any channel in band raised {impl["err"]}')
+    elif impl['err'] not in REJECT_KINDS:
+        res.fail(f'error-kind: amplifier without any channel in band ended in {impl["err"]} (not a ValueError / gnpy error)')
     res.nontrivial = 0 < len(exp) < len(before)
     res.stats.update({'call': 1, 'call_' + ab[0]: 1, 'call_selected': len(exp), 'call_dropped': len(before) - len(exp)})
     return res
@@ -982,7 +991,7 @@ def run_malformed(case, drv):
                                        for p in parts])
         res.cmp_exact('muxed_spectral_information.malformed', impl, mm.get('err', 'accepted'))
         exp = 'ValueError' if what == 'mux_empty' else 'SpectrumError'
-        if impl != exp:
+        if (impl != exp) if exp == 'SpectrumError' else (impl not in REJECT_KINDS):
             res.fail(f'malformed-merge: {what} answered {impl}, must be {exp}')
     else:
         eq, net = chain_net(case['net']['hops'])
@@ -1019,7 +1028,7 @@ def run_malformed(case, drv):
         ans = drv.ask('c07.propagate', path=[_elem_json(ab) for ab in _amp_bands(path)], fmin=int(sid.f_min),
                       fmax=int(sid.f_max), spacing=int(sid.spacing), chans=_chs(car))
         res.cmp_exact('request.propagate.malformed', impl, ans.get('err', 'accepted'))
-        if impl != exp:
+        if (impl != exp) if exp == 'SpectrumError' else (impl not in REJECT_KINDS):
             res.fail(f'malformed-request: {what} answered {impl}, must be {exp}')
     res.nontrivial = True
     res.stats.update({'malformed_' + what: 1})
